@@ -166,7 +166,7 @@ def run(ctx, args):
     src = A.pp(prog)
     lib = ctx.tmp("vmhistory-lib.json")
     lib.write_text(json.dumps({"prog": prog, "ops": ops, "init": init, "vms": 2}))
-    depth = 3          # 26^3 = 17 576 histories; depth 4 would be 456 976 (the thorough tier goes deeper by simulation instead)
+    depth = 2 if quick else 3          # 26^2 = 676 / 26^3 = 17 576 complete histories; longer ones by simulation (the thorough tier goes deeper by simulation instead)
     cfg = (f"CONSTANTS Depth = {depth}\nINIT HInit\nNEXT HNext\nINVARIANT NamesKept\nINVARIANT Report\n"
            "PROPERTY Isolation\nPROPERTY Persistence\nPROPERTY FreshLocals\nCHECK_DEADLOCK FALSE\n")
     res = ctx.tlc("VMHistory", cfg, env={"BATCH": str(lib)}, timeout=6000)
@@ -176,7 +176,7 @@ def run(ctx, args):
         raise common.Machinery(f"expected {want} complete histories from TLC, got {len(hists)}")
     # longer random histories: TLC simulation mode over the same specification
     sdepth = 10 if quick else 16
-    num = 400 if quick else 12000
+    num = 700 if quick else 12000
     cfg2 = (f"CONSTANTS Depth = {sdepth}\nINIT HInit\nNEXT HNext\nINVARIANT NamesKept\nINVARIANT Report\nCHECK_DEADLOCK FALSE\n")
     res2 = ctx.tlc("VMHistory", cfg2, env={"BATCH": str(lib)}, timeout=6000, simulate=f"num={num}", depth=sdepth * 150, seedarg=ctx.seed + 1, workers=1)
     long_h = [r["hist"] for r in res2.records]
